@@ -8,22 +8,22 @@ about a model of THIS source.  Which part changed is reported by ./check from co
 -/
 namespace QR.Pinned
 
-def fp_C01 : Nat := 0x5fce9f4ab1fb9aa
+def fp_C01 : Nat := 0x56ded01e9bd4db7
 def fp_C02 : Nat := 0xc2c07b3f87c66ad
 def fp_C03 : Nat := 0x7ea03f23e59dfb9
 def fp_C04 : Nat := 0x7fb4d713af62556
 def fp_C05 : Nat := 0x7fb4d713af62556
-def fp_C06 : Nat := 0x5c7740011eaef5f
-def fp_C07 : Nat := 0x71ec5ecaffa1d30
+def fp_C06 : Nat := 0xa43580db018a14e
+def fp_C07 : Nat := 0x954bb2332877f8c
 def fp_C08 : Nat := 0xe13d432a7dba314
-def fp_C09 : Nat := 0x1f42bce0812fc34
+def fp_C09 : Nat := 0x56ded01e9bd4db7
 def fp_C10 : Nat := 0xd0e160935a1ccbd
 def fp_C11 : Nat := 0x7ea03f23e59dfb9
-def fp_C12 : Nat := 0xb98d07d069f2aa0
-def fp_C13 : Nat := 0x0b5c95f9d21acb8
-def fp_C14 : Nat := 0x4d6c936003bad7e
-def fp_C15 : Nat := 0xab8443408111eb9
-def fp_C16 : Nat := 0x6af7802da213456
+def fp_C12 : Nat := 0x04763fdcbe7a7b9
+def fp_C13 : Nat := 0x617e5179d298321
+def fp_C14 : Nat := 0xb0d5d72ac3c7e28
+def fp_C15 : Nat := 0x6eca37d7b9f865c
+def fp_C16 : Nat := 0xbfdf48c6b3a0599
 def fp_C17 : Nat := 0xcb05b91cb0198af
 def fp_C18 : Nat := 0x48560da9956e7f4
 def fp_C19 : Nat := 0x97c3f4782fae3e8
